@@ -84,7 +84,13 @@ pub fn call_cases(tier: Tier) -> Vec<CallCase> {
                         n += 1;
                         let req_md = mds[n % mds.len()].clone();
                         let initial_md = mds[(n / 2) % mds.len()].clone();
-                        let script = Script { initial_md, msgs: msgs.clone(), end, handler_err, bidi: *mode, disable_compression: false };
+                        let script = Script { initial_md, msgs: msgs.clone(), end, handler_err, bidi: *mode, disable_compression: false, exact_hint: false };
+                        // the same call with message sources that announce their exact length
+                        if n % 3 == 0 || (msgs.is_empty() && script.end.is_none()) {
+                            let mut s2 = script.clone();
+                            s2.exact_hint = true;
+                            out.push(CallCase { shape, req_msgs: req_msgs.clone(), req_md: req_md.clone(), script: s2, free_cuts: false, enc: None, fixed_chunks: false });
+                        }
                         out.push(CallCase { shape, req_msgs: req_msgs.clone(), req_md, script, free_cuts: false, enc: None, fixed_chunks: false });
                     }
                 }
@@ -98,9 +104,9 @@ pub fn call_cases(tier: Tier) -> Vec<CallCase> {
         let noisy = super::codec_common::payload(40_000, 1);
         for shape in Shape::ALL {
             for enc in [Enc::Gzip, Enc::Deflate, Enc::Zstd] {
-                for (req, resp) in [(zeros.clone(), noisy.clone()), (noisy.clone(), zeros.clone()), (vec![1u8, 2, 3], zeros.clone())] {
+                for (req, resp) in [(zeros.clone(), noisy.clone()), (noisy.clone(), zeros.clone()), (vec![1u8, 2, 3], zeros.clone()), (vec![], vec![])] {
                     let req_msgs = if shape.streams_requests() { vec![req.clone(), vec![5]] } else { vec![req.clone()] };
-                    let script = Script { initial_md: vec![], msgs: vec![resp.clone(), vec![6]], end: None, handler_err: false, bidi: BidiMode::ReadAll, disable_compression: false };
+                    let script = Script { initial_md: vec![], msgs: vec![resp.clone(), vec![6]], end: None, handler_err: false, bidi: BidiMode::ReadAll, disable_compression: false, exact_hint: false };
                     out.push(CallCase { shape, req_msgs: req_msgs.clone(), req_md: vec![], script: script.clone(), free_cuts: false, enc: Some(enc), fixed_chunks: true });
                     // the per-response opt-out (Response::disable_compression) on unary responses
                     if !shape.streams_responses() {
@@ -116,7 +122,7 @@ pub fn call_cases(tier: Tier) -> Vec<CallCase> {
     for shape in Shape::ALL {
         let req_msgs = if shape.streams_requests() { vec![vec![1], vec![]] } else { vec![vec![1]] };
         for end in [None, Some(statuses[4].clone())] {
-            let script = Script { initial_md: mds[1].clone(), msgs: vec![vec![2]], end, handler_err: false, bidi: BidiMode::ReadAll, disable_compression: false };
+            let script = Script { initial_md: mds[1].clone(), msgs: vec![vec![2]], end, handler_err: false, bidi: BidiMode::ReadAll, disable_compression: false, exact_hint: false };
             out.push(CallCase { shape, req_msgs: req_msgs.clone(), req_md: mds[2].clone(), script, free_cuts: true, enc: None, fixed_chunks: false });
         }
     }
@@ -310,8 +316,8 @@ pub fn describe(c: &CallCase) -> String {
         return format!("{:?} enc={:?} opt_out={} req_lens={:?} resp_lens={:?} (large messages, fixed chunks)", c.shape, c.enc.map(|e| e.name()), c.script.disable_compression, c.req_msgs.iter().map(|m| m.len()).collect::<Vec<_>>(), c.script.msgs.iter().map(|m| m.len()).collect::<Vec<_>>());
     }
     format!(
-        "{:?} req={:?} req_md={:?} script{{md={:?} msgs={:?} end={:?} handler_err={} mode={:?}}} free={}",
-        c.shape, c.req_msgs, c.req_md, c.script.initial_md, c.script.msgs, c.script.end, c.script.handler_err, c.script.bidi, c.free_cuts
+        "{:?} req={:?} req_md={:?} script{{md={:?} msgs={:?} end={:?} handler_err={} mode={:?} exact_size_hint={}}} free={}",
+        c.shape, c.req_msgs, c.req_md, c.script.initial_md, c.script.msgs, c.script.end, c.script.handler_err, c.script.bidi, c.script.exact_hint, c.free_cuts
     )
 }
 
